@@ -401,6 +401,10 @@ pub fn fixed_cases() -> Vec<(&'static str, Vec<(&'static str, &'static [u8])>)> 
         ("no-final-newline-crlf-lower", vec![("s0", r), ("s1", b">q1 d  \r\nac\r\n\r\ngt")]),
         ("non-iupac-short", vec![("s0", r), ("s1", b">q1\nACGTXACGT\n")]),
         ("digits-gaps", vec![("s0", r), ("s1", b">q1\nAC-GT 12*.\n  \nNNRY\n")]),
+        // two records with the same name in one sample (repaired defect D13: the second one's
+        // segments overwrote the first one's descriptors; now create refuses the input)
+        ("duplicate-name", vec![("s0", r), ("s1", b">q1\nACGTACGTTGCAACGTAGCTAGCTAGGATCGATCGTAGCAAGCTAGC\n>q1\nTTGACCATGGCATTGACCAGTACCGATTAGGCAT\n>q2\nACGT\n")]),
+        ("duplicate-name-ref", vec![("s0", b">r1\nACGTACGTTGCAACGTAGCTAGCTAGGATCGATCGTAGCTAGC\n>r1\nTTGACCATGGCATTGACCAGTACCGATTAGGCATCCA\n"), ("s1", b">q1\nACGT\n")]),
         ("single-file-empty-record", vec![("all", b">A#1#c1\nACGTACGTAA\n>A#1#e\n>B#1#c1\nACGTACGTAC\n")]),
     ]
 }
